@@ -39,8 +39,8 @@ impl Translator<String> for Rename {
 }
 
 /// String -> concrete keys.
-struct ToConcrete {
-    map: HashMap<String, String>,
+pub struct ToConcrete {
+    pub map: HashMap<String, String>,
 }
 impl Translator<String> for ToConcrete {
     type TargetPk = DK;
@@ -244,6 +244,23 @@ fn ms_lane<C: ScriptContext>(node: &Node, ctx: Ctx, src: &mut Src, rep: &mut Rep
             }
             if mc.ty != ms.ty {
                 return fail("concrete-type/miniscript", "type changed by translation".to_string());
+            }
+            // the translated value is the value the parser builds from the substituted text,
+            // cached type and size data included
+            if let Ok(direct) = Miniscript::<DK, C>::from_str_with_validation_params(&ast::print(node, true), &p) {
+                if direct != mc || direct.ty != mc.ty || direct.ext != mc.ext {
+                    return fail(
+                        "concrete-vs-parsed/miniscript",
+                        format!("String->concrete translation of {} and the parse of the substituted text differ in {}", ms, if direct != mc { "value" } else if direct.ty != mc.ty { "type" } else { "extra data (sizes)" }),
+                    );
+                }
+                // ... and so is an identity translation of the parsed value
+                if let Ok(again) = direct.translate_pk(&mut IdentDk) {
+                    let again: Miniscript<DK, C> = again;
+                    if again != direct || again.ty != direct.ty || again.ext != direct.ext {
+                        return fail("identity-ext/miniscript", format!("identity translation of {} changes its cached type / size data", direct));
+                    }
+                }
             }
         }
         Err(TranslateErr::OuterError(e)) => {
@@ -461,7 +478,9 @@ impl Check for C20 {
         }
         let d = gen::gen_desc(src, kind, &|ctx| {
             let mut c = Cfg::sane(ctx, size);
-            c.key_style = KeyStyle::Hex;
+            // tapscript: full (02/03) keys next to x-only ones
+            c.key_style = if ctx == Ctx::Tap && size % 3 == 0 { KeyStyle::Rich } else { KeyStyle::Hex };
+            c.xpub_chance = 0;
             c.distinct_keys = src_free_bool(size);
             c
         });
